@@ -401,8 +401,9 @@ func runConc(c *Case) lib.Result {
 		}
 		out.Build = append(out.Build, ob)
 	}
-	if w.nfwd != sh.nfwd {
-		fail("goroutine", fmt.Sprintf("construction started %d goroutines, expected %d forwarders", w.nfwd, sh.nfwd))
+	if w.nfwd > sh.nfwd {
+		// (a forwarder over an exhausted source may already be gone when it is counted)
+		fail("goroutine", fmt.Sprintf("construction started %d goroutines, expected at most %d forwarders", w.nfwd, sh.nfwd))
 	}
 	tags := []string{"mode:conc", fmt.Sprintf("fwd:%d", sh.nfwd), fmt.Sprintf("leaves:%d", len(c.Leaves)), fmt.Sprintf("pipes:%d", len(c.Writers))}
 	if !buildOK {
